@@ -7,13 +7,18 @@ import EgoVerif.C29.Model
         → disc=<0|1> fire=<0|1> msgs=<dest:cache:sender:hops:tok:accept,…|->
    purgeall <self> <cluster|-> <db> <hook> <on> <caches c,c,…|-> <rows|->
         → msgs=<…>                       (caches purged in ascending id order, as PurgeAll does)
+   burst    <self> <cluster|-> <db> <hook> <on> <cache> <n> <rows|->
+        → disc=<0|1> fire=<k> msgs=<…>   (n Purge calls of the same cache, the later ones issued while a peer still
+                                          sits on a request of the first: `purgeBurstWith`; everything the peers
+                                          received for the n purges, by ascending destination)
    flush    <self> <cluster|-> <db> <hook> <on> <accept> <tok|-> <wf> <cache> <hops> <rows|->
         → status=<401|400|200> disc=<0|1> fire=<0|1> msgs=<…>      (through the router: routeFlush)
 
    rows = id:name:active:beh,…   in join order (`joined_at`, the order BroadcastCacheFlush walks). `beh` is what
    the peer's HTTP endpoint does: ok | <status> (answers that status) | hangup | dead (nobody listens) |
    hold<ms> (receives the request, answers 200 after <ms> milliseconds — later than the sender's 5 s timeout
-   when <ms> > 5000). The answer lists the requests the peers RECEIVE (`receivedOf` of `purgeNodeWith`): a
+   when <ms> > 5000) | gate (receives the request and sits on it until the harness has issued the remaining purges
+   of a burst, well inside the timeout, then answers 200; outside a burst it answers at once). The answer lists the requests the peers RECEIVE (`receivedOf` of `purgeNodeWith`): a
    request to a dead port is sent by the model but cannot be observed; a slow, failing or hanging-up peer
    receives its request and changes nothing for the others.
    Within one purge the requests are listed by ascending destination id. -/
@@ -29,6 +34,7 @@ def parseBeh (s : String) : Option PeerBeh :=
   if s == "ok" then some (.answers 200 0)
   else if s == "hangup" then some .hangsUp
   else if s == "dead" then some .unreachable
+  else if s == "gate" then some (.answers 200 1)
   else match s.toList with
     | 'h' :: 'o' :: 'l' :: 'd' :: ms => (String.ofList ms).toNat?.map (fun ms => .answers 200 ms)
     | _ => s.toNat?.map (fun st => .answers st 0)
@@ -93,6 +99,12 @@ def handle (line : String) : String :=
     | some self, some cl, some db, some hook, some on, some notify, some c, some rows =>
       let r := purgeNodeWith self cl db hook on notify (rows.map (·.1)) (behOf rows) c none
       s!"disc={b01 r.1} fire={b01 r.2.1} msgs={showMsgs (observed r.2.2)}"
+    | _, _, _, _, _, _, _, _ => "bad-input"
+  | ["burst", self, cl, db, hook, on, cache, n, rows] =>
+    match self.toNat?, optNat cl, bit db, bit hook, bit on, cache.toInt?, n.toNat?, parseRows rows with
+    | some self, some cl, some db, some hook, some on, some c, some n, some rows =>
+      let sends := purgeBurstWith self cl db hook on (rows.map (·.1)) (behOf rows) c 0 n
+      s!"disc={b01 (cachePurge on true hook).1} fire={purgeBurstFired hook on n} msgs={showMsgs (observed sends)}"
     | _, _, _, _, _, _, _, _ => "bad-input"
   | ["purgeall", self, cl, db, hook, on, caches, rows] =>
     match self.toNat?, optNat cl, bit db, bit hook, bit on, parseInts caches, parseRows rows with
